@@ -73,6 +73,18 @@ OWNERS = {
 }
 
 
+# C05: "status and side effects follow the documented command semantics" — the effect of a
+# command is only visible through later traffic, so C05 co-owns the clauses in which the
+# observed behaviour contradicts the state the delivered commands should have produced.
+for _c in ("route.unexpected-recipient", "route.missing-recipient", "route.powered-off-recipient",
+		"queue.not-emitted", "queue.spurious-emission", "queue.accepted-while-idle", "queue.version-mismatch-accepted",
+		"meta.header-version", "meta.rssi", "meta.toa", "meta.ci", "meta.bits",
+		"drop.not-suppressed", "drop.suppressed-unexpectedly", "drop.count", "drop.nope-missing",
+		"clock.ind-recipients", "clock.tick-while-stopped", "clock.no-ticks-while-running"):
+	if "C05" not in OWNERS[_c]:
+		OWNERS[_c] = OWNERS[_c] + ["C05"]
+
+
 class Trx:
 	def __init__(self, i, d):
 		self.i = i
@@ -823,7 +835,7 @@ class Monitor:
 					self.viols.append({"clause": "queue.not-emitted",
 						"detail": {"fn": fn, "sender": e.S.label(), "recipient": R.label(), "tn": e.b.tn,
 							"expected_recipients": len(same)},
-						"owners": ["C03", "C02"]})
+						"owners": ["C03", "C02", "C05"]})
 		if isinstance(drop_k, int):
 			maybe = [e for e in exps if e.suppress == "maybe" and not e.optional]
 			sure = sum(1 for e in maybe if (e.matched is not None and e.matched.get("nope")) or
